@@ -169,6 +169,14 @@ def _uvl_scalar(rng, strings):
     if k < 0.45:
         return rng.choice([0, 1, 2, 7, 10, 42, 100, 65535, 123456789])
     if k < 0.65:
+        if rng.random() < 0.3:
+            # floats that need all 16-17 significant digits to survive ("plain-decimal float":
+            # repr() without an exponent)
+            v = rng.choice([0.30000000000000004, 0.7999999999999999, 0.00012345678901234567,
+                            123456.78901234567, 1.0000000000000002, 9007199254740992.0,
+                            rng.random() * rng.choice([1, 1, 10, 1000, 100000])])
+            if "e" not in repr(v) and v == v:
+                return v
         return rng.choice([0.5, 1.5, 2.25, 3.0, 10.0, 0.125, 99.9, 1234.5678, 0.1234567,
                            99.9999999, 3.141592653589793, 100000.5, 0.000125])
     return rng.choice(strings)
@@ -202,9 +210,12 @@ def _attr_value(rng, kind, depth=0, nonascii=False):
             if j < 0.2:
                 return rng.choice([True, False])
             if j < 0.45:
-                return rng.choice([0, 1, -1, 7, -42, 100, 2 ** 40])
+                return rng.choice([0, 1, -1, 7, -42, 100, 2 ** 40, 2 ** 53 + 1, 2 ** 63,
+                                   -(2 ** 63) - 1, 10 ** 20])
             if j < 0.65:
-                return rng.choice([0.5, -1.5, 2.25, 3.0, 1e-07, 1e+22, 0.1])
+                return rng.choice([0.5, -1.5, 2.25, 3.0, 1e-07, 1e+22, 0.1, 0.30000000000000004,
+                                   0.7999999999999999, 1.7976931348623157e+308, 5e-324,
+                                   123456.78901234567, rng.random()])
             return rng.choice(strings)
         if k < 0.85:
             return [_attr_value(rng, kind, depth + 1, nonascii) for _ in range(rng.randint(0, 3))]
